@@ -16,11 +16,14 @@ def gen(rnd, n, prefix="g"):
         calls, script = [{"api": "open"}], []
         for _ in range(rnd.randint(1, 6)):
             c, s = S.generic_call(rnd, route)
-            if rnd.random() < 0.3 and s["status"] == 0:
+            if rnd.random() < 0.3:
                 t = rnd.choice([d_int(2, 0), d_int(4, 1), d_str(2, 1), d_real(4), d_struct([("a", d_int(2, 0)), ("b", d_int(1, 1))]),
                                 d_arr("unbounded", d_int(2, 1))])
                 c["kwargs"]["data_type"] = {"__dtype": t}
                 c["intent"]["dtype"] = t
+            if rnd.random() < 0.15:                 # a helper that derives its own route from the configured one in between
+                sl = rnd.choice([0, 1, 2, 7, 16])
+                calls.append({"api": "get_module_info", "slot": sl, "intent": {"slot": sl}})
             calls.append(c)
             script.append(s)
         calls.append({"api": "close"})
